@@ -23,9 +23,10 @@ Fixpoint listing (g : fsgraph) (i : N) : option (bool * list dent) :=
 
 Record lst := {
   l_found : N; l_vis : list N; l_vdirs : list str; l_queue : list (str * str * N);
-  l_errs : list str; l_out : list str }.
+  l_errs : list str; l_out : list str;
+  l_ent : list N }.       (* GHOST (never read by the walk): inodes on which read_dir was attempted, newest first *)
 
-Definition lst0 : lst := {| l_found := 0; l_vis := []; l_vdirs := []; l_queue := []; l_errs := []; l_out := [] |}.
+Definition lst0 : lst := {| l_found := 0; l_vis := []; l_vdirs := []; l_queue := []; l_errs := []; l_out := []; l_ent := [] |}.
 
 Definition is_abs (p : str) : bool := match p with 47 :: _ => true | _ => false end.
 
@@ -38,17 +39,19 @@ Variables (mn mx : N) (dfs : bool).
 Variable limit : N.          (* unbuffered LIMIT (0 = none) *)
 
 Definition set_out (s : lst) (p : str) : lst :=
-  {| l_found := l_found s + 1; l_vis := l_vis s; l_vdirs := l_vdirs s; l_queue := l_queue s; l_errs := l_errs s; l_out := l_out s ++ [p] |}.
+  {| l_found := l_found s + 1; l_vis := l_vis s; l_vdirs := l_vdirs s; l_queue := l_queue s; l_errs := l_errs s; l_out := l_out s ++ [p]; l_ent := l_ent s |}.
 Definition add_vis (s : lst) (i : N) : lst :=
-  {| l_found := l_found s; l_vis := i :: l_vis s; l_vdirs := l_vdirs s; l_queue := l_queue s; l_errs := l_errs s; l_out := l_out s |}.
+  {| l_found := l_found s; l_vis := i :: l_vis s; l_vdirs := l_vdirs s; l_queue := l_queue s; l_errs := l_errs s; l_out := l_out s; l_ent := l_ent s |}.
 Definition add_vdir (s : lst) (p : str) : lst :=
-  {| l_found := l_found s; l_vis := l_vis s; l_vdirs := p :: l_vdirs s; l_queue := l_queue s; l_errs := l_errs s; l_out := l_out s |}.
+  {| l_found := l_found s; l_vis := l_vis s; l_vdirs := p :: l_vdirs s; l_queue := l_queue s; l_errs := l_errs s; l_out := l_out s; l_ent := l_ent s |}.
 Definition add_lerr (s : lst) (p : str) : lst :=
-  {| l_found := l_found s; l_vis := l_vis s; l_vdirs := l_vdirs s; l_queue := l_queue s; l_errs := l_errs s ++ [p]; l_out := l_out s |}.
+  {| l_found := l_found s; l_vis := l_vis s; l_vdirs := l_vdirs s; l_queue := l_queue s; l_errs := l_errs s ++ [p]; l_out := l_out s; l_ent := l_ent s |}.
 Definition push_q (s : lst) (it : str * str * N) : lst :=
-  {| l_found := l_found s; l_vis := l_vis s; l_vdirs := l_vdirs s; l_queue := l_queue s ++ [it]; l_errs := l_errs s; l_out := l_out s |}.
+  {| l_found := l_found s; l_vis := l_vis s; l_vdirs := l_vdirs s; l_queue := l_queue s ++ [it]; l_errs := l_errs s; l_out := l_out s; l_ent := l_ent s |}.
+Definition add_ent (s : lst) (i : N) : lst :=
+  {| l_found := l_found s; l_vis := l_vis s; l_vdirs := l_vdirs s; l_queue := l_queue s; l_errs := l_errs s; l_out := l_out s; l_ent := i :: l_ent s |}.
 Definition set_q (s : lst) (q : list (str * str * N)) : lst :=
-  {| l_found := l_found s; l_vis := l_vis s; l_vdirs := l_vdirs s; l_queue := q; l_errs := l_errs s; l_out := l_out s |}.
+  {| l_found := l_found s; l_vis := l_vis s; l_vdirs := l_vdirs s; l_queue := q; l_errs := l_errs s; l_out := l_out s; l_ent := l_ent s |}.
 
 (* ok_to_visit_dir with current_follow_symlinks = true *)
 Definition ok_visit (ino : N) (s : lst) : bool * lst :=
@@ -60,7 +63,7 @@ Fixpoint lvisit (fuel : nat) (dir canon : str) (i : N) (root_depth : N) (s : lst
   | S f =>
     if existsb (str_eqb dir) (l_vdirs s) then Some s                 (* visited_dirs.contains(dir) *)
     else
-      let s := add_vdir s dir in
+      let s := add_ent (add_vdir s dir) i in                          (* ghost: read_dir(dir) is attempted now *)
       let cd := calc_depth canon in
       let base := base_depth_of root_depth cd in
       let depth := depth_of cd base in
